@@ -13,7 +13,7 @@ PROP = "C07"
 def gen(rng, tier, boost):
     cases = []
     dist = {"document": 0, "prefix": 0, "suffix": 0, "bracket": 0, "separator": 0}
-    ndoc = (140 if tier == "quick" else 3000) * boost
+    ndoc = (600 if tier == "quick" else 8000) * boost
     for _ in range(ndoc):
         w = rng.randrange(4)
         v, out = jc.gen_doc(rng, w, maxlen=rng.choice([20, 40, 60, 200]))
